@@ -123,7 +123,7 @@ def evaluate(ctx, cases):
             rows = '[' + ','.join('[%d,%d,%d]' % (a, b, e) for a, b, e in zip(df['sample_last_' + side].values, df['sample_' + cen].values,
                                                                                df['sample_next_' + side].values)) + ']'
             mono = (lambda: implutil.reuse_buffer(lambda a: compute_monotonicity(df, a), xi)) if c.get('reuse') else (lambda: compute_monotonicity(df, xi))
-            reqs.append('mono.model %s %s %s' % (T, proto.enc_list(x), rows)); items.append(('mono', _wrap(mono), 'corr'))
+            reqs.append('mono.model %s %s %s' % (T, proto.enc_list(x), rows)); items.append(('mono', _wrap(mono), 'both'))      # (C05_mono_steps: the transcription counts strict steps; the function called DIRECTLY on the presented samples is judged too)
             reqs.append('mono.spec %s %s %s' % (T, proto.enc_list(x), rows)); items.append(('mono_spec', ['ok', [float(v) for v in df['monotonicity'].values]], 'judge'))
             # the columns of the returned table are these functions' values
             items.append(('cols', None, 'cols'))
